@@ -28,7 +28,7 @@ def cells(tier, seed):
     out = []
     Ds = (1, 2, 3, 5) if tier == "quick" else (1, 2, 3, 4, 5, 6)
     Rs = (1, 3) if tier == "quick" else (1, 2, 4)
-    reps = 2 if tier == "quick" else 6
+    reps = 2 if tier == "quick" else 10
     for diag in (False, True):
         for R in Rs:
             for D in Ds:
